@@ -12,7 +12,7 @@ Program families: repository programs, X templates and random programs, hand-sha
 the system-call shim (adjacent SVCs, SVC as first instruction, SVC at a branch target, reads at end
 of input, bytes >= 0x80, every stream class).
 """
-import subprocess, os, json, shutil, collections, struct
+import hashlib, subprocess, os, json, shutil, collections, struct
 import vlib, rtllib, asmlib, xlib, corpus
 
 PID = "C06"
@@ -137,21 +137,60 @@ def run(tier, replay=None):
             wd = os.path.join(d, "exe"); shutil.rmtree(wd, ignore_errors=True); os.makedirs(wd)
             # standard input is a seekable file: its offset after the tool has exited is the input the tool consumed
             open(os.path.join(wd, "in.dat"), "wb").write(bytes(inp))
-            def with_stdin(argv):
+            def with_stdin(argv, wd=wd):
+                for fn in os.listdir(wd):
+                    if fn.startswith("simout"):
+                        os.remove(os.path.join(wd, fn))
                 fd = os.open(os.path.join(wd, "in.dat"), os.O_RDONLY)
                 try:
-                    p = subprocess.run(argv, cwd=wd, stdin=fd, stdout=subprocess.PIPE, stderr=subprocess.PIPE, timeout=300)
-                    return p, os.lseek(fd, 0, os.SEEK_CUR)
+                    p = subprocess.run(argv, cwd=wd, stdin=fd, stdout=subprocess.PIPE, stderr=subprocess.PIPE, timeout=600)
+                    pos = os.lseek(fd, 0, os.SEEK_CUR)
                 finally:
                     os.close(fd)
+                files = ";".join("%s=%s" % (fn, hashlib.sha256(open(os.path.join(wd, fn), "rb").read()).hexdigest()[:16]) for fn in sorted(os.listdir(wd)) if fn.startswith("simout"))
+                return p, "in%d;%s" % (pos, files)
             p1, pos1 = with_stdin([os.path.join(tdir, "hexsim"), b])
             p2, pos2 = with_stdin([os.path.join(tdir, "hextb"), b, "+verilator+seed+%d" % (vlib.seed() + 5)])
             nexe += 2
             o2 = p2.stdout
             mark = o2.find(b"bytes to memory\n")
             o2 = o2[mark + len(b"bytes to memory\n"):] if mark >= 0 else o2
-            history.append({'key': "exe%d" % k, 'cfg': 'hexsim-exe', 'obs': "%d:%s:in%d" % (p1.returncode, p1.stdout.hex(), pos1)})
-            history.append({'key': "exe%d" % k, 'cfg': 'hextb-exe', 'obs': "%d:%s:in%d" % (p2.returncode, o2.hex(), pos2)})
+            history.append({'key': "exe%d" % k, 'cfg': 'hexsim-exe', 'obs': "%d:%s:%s" % (p1.returncode, p1.stdout.hex(), pos1)})
+            history.append({'key': "exe%d" % k, 'cfg': 'hextb-exe', 'obs': "%d:%s:%s" % (p2.returncode, o2.hex(), pos2)})
+        # the longest binary the toolchain produces here: the X compiler written in X (tests/x/xhexb.x compiled by xcmp) compiling a source, and
+        # then the binary IT produced, through both executables (standard output, the simout file it writes, status, input consumed)
+        bwd = os.path.join(d, "boot"); os.makedirs(bwd, exist_ok=True)
+        xb = os.path.join(bwd, "xhexb.bin")
+        vlib.sh([os.path.join(tdir, "xcmp"), os.path.join(vlib.REPO, "tests/x/xhexb.x"), "-o", xb], check=True, timeout=300)
+        bsrcs = [("skip", b"proc main() is skip\n"), ("hello", open(os.path.join(vlib.REPO, "tests/x/hello_putval.x"), "rb").read())]
+        if tier != "quick":
+            bsrcs += [(os.path.basename(f), open(f, "rb").read()) for f in corpus.repo_sources_x() if not f.endswith("xhexb.x")]
+        boots = {}
+        for tag, src in bsrcs:
+            open(os.path.join(bwd, "in.dat"), "wb").write(src)
+            prods = {}
+            for who, argv in (("hexsim-exe", [os.path.join(tdir, "hexsim"), xb]), ("hextb-exe", [os.path.join(tdir, "hextb"), xb, "+verilator+seed+%d" % (vlib.seed() + 9)])):
+                p, rest = with_stdin(argv, wd=bwd)
+                nexe += 1
+                o = p.stdout; mark = o.find(b"bytes to memory\n"); o = o[mark + len(b"bytes to memory\n"):] if who == "hextb-exe" and mark >= 0 else o
+                history.append({'key': "boot:" + tag, 'cfg': who, 'obs': "%d:%s:%s" % (p.returncode, hashlib.sha256(o).hexdigest()[:16], rest)})
+                prods[who] = open(os.path.join(bwd, "simout2"), "rb").read() if os.path.exists(os.path.join(bwd, "simout2")) else b""
+            boots[tag] = len(prods["hexsim-exe"])
+            # the compiler's product, when it is a binary, on both executables
+            if prods["hexsim-exe"] and prods["hexsim-exe"] == prods["hextb-exe"]:
+                pb = os.path.join(bwd, "prod.bin"); open(pb, "wb").write(prods["hexsim-exe"])
+                open(os.path.join(bwd, "in.dat"), "wb").write(b"ab")
+                for who, argv in (("hexsim-exe", [os.path.join(tdir, "hexsim"), pb]), ("hextb-exe", [os.path.join(tdir, "hextb"), pb, "+verilator+seed+%d" % (vlib.seed() + 11)])):
+                    try:
+                        p, rest = with_stdin(argv, wd=bwd)
+                    except subprocess.TimeoutExpired:
+                        continue
+                    nexe += 1
+                    o = p.stdout; mark = o.find(b"bytes to memory\n"); o = o[mark + len(b"bytes to memory\n"):] if who == "hextb-exe" and mark >= 0 else o
+                    # (binaries written by xhexb exit through `LDAC 0; OPR SVC` without storing an exit value: their status is a word they
+                    # never wrote - outside the precondition - so only what they print and consume is compared)
+                    history.append({'key': "bootprod:" + tag, 'cfg': who, 'obs': "%s:%s" % (o.hex()[:400], rest)})
+        chk.set("bootstrap_sources_compiled_by_xhexb_on_both", boots)
         history.append({'key': history[0]['key'], 'cfg': 'canary', 'obs': 'CANARY'})
         hf = os.path.join(d, "hist.ndjson"); vlib.write_ndjson(hf, history)
         dout = vlib.tlc_fold("Determinism", "DeterminismF.cfg", [hf], heap="6g")[0][0][0]
@@ -166,6 +205,9 @@ def run(tier, replay=None):
         chk.set("pairs_outside_precondition", sorted(allimgs[k][0] for k in outside))
         fam = lambda iid: iid.split(':')[0] if ':' in iid else ''.join(ch for ch in iid if not ch.isdigit())
         for b in dbad:
+            if b['key'].startswith('boot'):
+                chk.violation("differs:%s" % b['key'].split(':')[0], "the xhexb compiler (%s): %s and %s disagree" % (b['key'], b['cfg1'], b['cfg2']), {"conflict.json": json.dumps(b)})
+                continue
             k = int(b['key'][3:]) if b['key'].startswith('exe') else int(b['key'])
             if k in outside:
                 continue
